@@ -42,6 +42,44 @@ CHECKS = {
          "types and size mismatches must be rejected with the destination untouched; run on release and debug-assertion builds.",
     note="All 2^32 16-bit pairs are covered for the specified algorithm (lemmas), the code is executed on lattice^2 + seeded pairs only. NEON/WASM kernels cannot run here.",
     design="4/C06", technique=TECH + "; Apalache lemmas for all 16-bit pairs"),
+ "C05": dict(
+    text="Resizer.tla is the pipeline state machine over the implementation's hook events; MC_Resizer explores every call of a representative alphabet and checks Written "
+         "(a successful call assigns every destination pixel, an error/zero-size call none), NoStaleRead, BuffersHome, Canonical; the pinned 'no pass does nothing' "
+         "behaviour is refuted as a witness. Conformance: ~1.2k (quick) executions of resize (all algorithms, SuperSampling m=1..4 incl. same-size intermediates), the four "
+         "alpha operations, mapping and conversion, through exact / oversized / cropped / nested / typed destinations, 1 and 4 threads, each run twice with different sentinels: "
+         "the hook events of every recorded call (crop resolution, copy fast path, dispatch, super-sampling plan, every temporary image with buffer length before/after and alignment gap, window extents, pass order and offsets, premultiply/divide) are validated step by step against Resizer!Ok/Upd (TraceResize), and TLC checks outside bytes unchanged, inside bytes equal in both runs, source unchanged, destination untouched on errors and zero sizes.",
+    note="Outside/source bytes are compared via two 31-bit digests. Assignment is inferred from equality under two sentinels (a result equal to both sentinels would be missed).",
+    design="4/C05", technique=TECH),
+ "C07": dict(
+    text="MC_AlphaAlgebra checks exhaustively on a tiny domain that Div(Conv(Mul(src))) ignores colours under alpha 0, yields colour 0 where the resampled alpha is 0, "
+         "equals plain resizing for an opaque source and leaves the alpha lane a plain convolution; MC_Resizer checks that the canonical term has Mul..Div exactly when alpha "
+         "is on and the type has alpha. Conformance: metamorphic pairs (recoloured transparent pixels; opaque alpha-on vs alpha-off; alpha plane on vs off) for the 6 alpha types x "
+         "convolution algorithms x 7 filters x back-ends; the hook events of every recorded call (crop resolution, copy fast path, dispatch, super-sampling plan, every temporary image with buffer length before/after and alignment gap, window extents, pass order and offsets, premultiply/divide) are validated step by step against Resizer!Ok/Upd (TraceResize), and TLC compares the recorded images of each pair.",
+    note="Float opaque pairs are compared within 4 ulp (the divide by a resampled alpha of ~1.0).", design="4/C07", technique=TECH),
+ "C09": dict(
+    text="Resizer.tla models the three scratch buffers (grow-only lengths, one-pixel alignment gap, moved out and put back) and MC_Resizer_hist explores all 3-call histories "
+         "with Reset of a reduced alphabet (full 2-call histories in the thorough tier). Conformance: seeded histories (all 13 pixel types, larger-then-smaller sizes, all algorithms, alpha on/off, "
+         "rejected and zero calls, reset_internal_buffers, clone) on long-lived Resizers, every call repeated on a fresh one: TLC replays each history per slot -- the logged buffer "
+         "length before/after every temporary image and the alignment gap must equal the model's, the hook sequence must be allowed -- and the reused result must equal the fresh one.",
+    note="Results compared via two 31-bit digests. Buffer contents are abstract (written / not written per image); stale *content* is detected only through the result comparison.",
+    design="4/C09", technique=TECH),
+ "C11": dict(
+    text="Geometry!NearestSet is the exact rational floor(left + (x+1/2) w/n) with both neighbours at an exact tie; MC_Geometry checks index-inside-source for all geometries up to 6 "
+         "pixels on the quarter-pixel grid, GeomLemmas!NearestInside proves it for all sizes < 2^16 (Apalache). Conformance: identity-tagged sources of all 13 types, edge-flush and "
+         "sub-pixel crops, 1-pixel sources, ratios to 1:200, buffers flush against guard pages; TLC checks every destination pixel is a bit-exact copy of a candidate source pixel and that the "
+         "hook trace is Call, Dispatch, Nearest, Ret (no alpha phase).",
+    note="Crop coordinates are dyadic (quarter pixels) so that the code's f64 arithmetic is exact away from ties.", design="4/C11", technique=TECH + "; Apalache lemma"),
+ "C12": dict(
+    text="Resizer.tla: copy fast path iff the crop is integer-aligned and of the destination's size; a dimension whose extent is unchanged gets no pass; a plan without passes copies "
+         "(the pinned do-nothing behaviour is refuted as a witness in MC_Resizer). Conformance: destination = integer crop size for all types/algorithms/filters/alpha/back-ends/containers: "
+         "hook trace must be copy_fast and dst = source region bit-exactly (TLC); one-dimension-equal cases: the logged plan has no pass along that dimension and changing one source column "
+         "(row) changes only that destination column (row); SuperSampling whose intermediate image has the destination's size must equal the nearest-neighbour intermediate.",
+    note="", design="4/C12", technique=TECH),
+ "C13": dict(
+    text="Views.tla: a view exposes exactly its rectangle of the parent (MC_Views). Conformance: each logical call (resize with every algorithm, alpha ops, mapping, conversion) is executed through "
+         "17 container/placement combinations (owned, slice, reference, typed, typed reference, cropped and nested-cropped views with different paddings, spare capacity, guard pages before/after; "
+         "dynamic and typed entry points); the hook events of every recorded call (crop resolution, copy fast path, dispatch, super-sampling plan, every temporary image with buffer length before/after and alignment gap, window extents, pass order and offsets, premultiply/divide) are validated step by step against Resizer!Ok/Upd (TraceResize), and TLC requires a single result per logical call, unchanged surroundings and source.",
+    note="Results compared via two 31-bit digests.", design="4/C13", technique=TECH),
 }
 NA_REASON = "check not built yet (work in progress; DESIGN.md section 7 lists the build order)"
 
